@@ -130,6 +130,27 @@ def run(ctx):
         for s in rng.sample(symbols, min(60, len(symbols))):
             one(s, "registered_symbol")
             one("7 " + s, "registered_symbol")
+    # what the rest of the program did before the text arrived: operations on the units that the library rightly refuses
+    # (a power that is whole but not an int, a root of float degree, arithmetic with a string...) - the very unit and
+    # exponent are then parsed.  A refused call must not change what a later parse does
+    from decimal import Decimal as _D
+    spellable = [s_ for s_ in symbols if s_.isalpha()]
+    for _ in range(200 if ctx.tier == "quick" else 5000):
+        if not spellable:
+            break
+        sym = rng.choice(spellable)
+        u = Unit._by_symbol[sym]
+        k = rng.choice([2, 3, 4, -1, -2, 5])
+        for refused in rng.sample([lambda: u ** float(k), lambda: u ** _D(k), lambda: (2 * u) ** float(k), lambda: (2 * u) ** _D(k), lambda: u.root(float(k)),
+                                   lambda: u * "x", lambda: u ** None, lambda: (u ** k) ** 0.5], 2):
+            try:
+                refused()
+                ctx.count("refused_operations_before_parsing/answered")
+            except Exception as e:
+                ctx.count(f"refused_operations_before_parsing/{type(e).__name__}")
+        sup = str(k).translate(str.maketrans("-0123456789", "⁻⁰¹²³⁴⁵⁶⁷⁸⁹"))
+        for text in (f"{sym}^{k}", f"{sym}{sup}", f"3 {sym}^{k}", f"2.5 {sym}{sup}/s"):
+            one(text, "after_refused_operation")
     n = ctx.scale(120000, 10_000_000) // 2
     for i in range(n):
         text, kind = gen.any_text()
